@@ -597,4 +597,14 @@ theorem send_returns_at_rest (tbl) (hd : Distinct tbl) (hf : Fresh tbl) (s : Sta
   · exact Or.inr h
   · exact absurd h (invSend tbl hd hf s hr i hk)
 
+/-- a state at rest after teardown: Watch returned, every call not started or returned -/
+theorem quiescent_of_returned (s : State) (hw : s.watch = .returned)
+    (hpc : ∀ j, (s.callers j).pc = .idle ∨ ∃ r, (s.callers j).pc = .done r) : Quiescent s := by
+  intro l hl
+  cases l with
+  | check i | write i | writeRet i | takeResp i | seeConnDone i | seeOwnDone i | finish i | closeTransport i | closeCancel i =>
+    rcases hpc i with h | ⟨r, h⟩ <;> simp [step, h]
+  | wPoll | wRead | wLookup | wDeliver | wOffer | wOfferCancel | wNack | wExit => simp [step, hw]
+  | _ => simp [Label.internal] at hl
+
 end Smpp.Conn
